@@ -26,6 +26,7 @@ func reportStress(prefix string, cfg stressCfg, res *stressResult, params map[st
 	out.Count(prefix+".retained_received", res.Retained)
 	out.Count(prefix+".published_flagged_dup", res.DupFlagged)
 	out.Count(prefix+".last_words_before_close", res.LastWords)
+	out.Count(prefix+".retained_clears", res.Clears)
 }
 
 // TestC17: whole packets on every outgoing stream, per-publisher order.
